@@ -115,10 +115,10 @@ package db
 // (precondition [fresh] of the callback), and afterwards the visited set has grown by exactly the leaves.
 //@ func RevTree.forEachLeaf
 //@   safety on
-//@   requires treeWF(tree) && noLeafVisited(tree)
-//@   modifies leafVisited
+//@   requires treeWF(tree)
+//@   resets leafVisited
 //@   before[leaf] call dynamic $0 != nil && leafOf(tree, $0.ID) && $0 == tree[$0.ID]
-//@   ensures[exactly-the-leaves] forall l string :: {l in leafVisited} {l in tree} (l in leafVisited) <==> old(l in leafVisited) || leafOf(tree, l)
+//@   ensures[exactly-the-leaves] forall l string :: {l in leafVisited} {l in tree} (l in leafVisited) <==> leafOf(tree, l)
 //@   loop 1 invariant[marked]  marksParents(tree, isParent) && leafVisited == old(leafVisited)
 //@   loop 1 invariant[seen]    forall k string :: {k in #visited} (k in #visited) ==> isParent[tree[k].Parent]
 //@   loop 2 invariant[marked]  marksParents(tree, isParent) && (forall k string :: {k in tree} (k in tree) ==> isParent[tree[k].Parent])
